@@ -11,7 +11,8 @@ from harness.common import Verdict, main_wrapper, parse_args
 from harness.pool import run_cases
 
 PROP = "C20"
-FACTORS = [(1, 1), (1, 10), (1, 4), (5, 2), (-3, 7), (25, 1), (1, 20), (-1, 8), (7, 3), (50, 1), (3, 20), (-1, 1)]
+FACTORS = [(1, 1), (1, 10), (1, 4), (5, 2), (-3, 7), (25, 1), (1, 20), (-1, 8), (7, 3), (50, 1), (3, 20), (-1, 1),
+           (-3, 1), (7, 1), (-5, 1), (2, 1), (-2, 1)]
 UTYPES = {8: 0x5, 16: 0x6, 32: 0x7}
 
 
@@ -38,6 +39,10 @@ def gen_cases(tier, seed):
                     if vd > 100:
                         continue
                     ops += [{"op": "phys_set", "vn": vn, "vd": vd}, {"op": "phys_get"}]
+                    if fd == 1 and abs(fn) > 1:
+                        # integer factor, integer physical value off the grid by less than half a step
+                        k = rng.randint(-((abs(fn) - 1) // 2), (abs(fn) - 1) // 2)
+                        ops += [{"op": "phys_set", "vn": r * fn + k, "vd": 1}, {"op": "phys_get"}]
                     if rng.random() < 0.3:
                         ops += [{"op": "setraw", "v": rng.randint(lo, hi)}, {"op": "phys_get"}]
                     if rng.random() < 0.3:
